@@ -77,9 +77,13 @@ def float_consts():
     if len(ms) != 2 or ms[0] != ms[1]:
         sys.stderr.write("gen_consts: rel_precision_tolerance factor: %r\n" % (ms,)); sys.exit(1)
     out.append(("ctx_rel_tol_factor_bits", f64bits(ms[0]), "views.rs rel_precision_tolerance = |bound| * %s" % ms[0]))
+    m = need("src/variables/core.rs", r"Val::ValF\(f\) => f\.abs\(\) >= f64::EPSILON \* " + F + ",", "Val::is_safe_divisor factor")
+    out.append(("safe_div_factor_bits", f64bits(m.group(1)), "variables/core.rs Val::is_safe_divisor: |f| >= f64::EPSILON * %s" % m.group(1)))
     need(UL, r"if value == 0\.0 \{\s*f64::EPSILON", "ulp(0) = EPSILON")
     need(UL, r"0x8000_0000_0000_0001u64", "prev_float(0) bits")
     out.append(("ulp_prev_of_zero_bits", 0x8000000000000001, "ulp_utils.rs prev_float(0.0) bits"))
+    m = need(UL, r"\} else if value == 0\.0 \{\s*0x([0-9a-fA-F_]+)u64 // smallest positive", "next_float(+-0) bits")
+    out.append(("ulp_next_of_zero_bits", int(m.group(1).replace("_", ""), 16), "ulp_utils.rs next_float(+-0.0) bits"))
     return out
 
 from gen_consts_flin import float_lin_consts
